@@ -356,7 +356,7 @@ def c05(tier):
         return [fph(2), conc_model('sequential', 1, 'P1'), hist_gen('histories3-core', 3, 'core'),
                 hist_gen('histories8-simulated', 8, 'all', timeout=10, simulate=1000000, depth=10, max_cases=6000)]
     return [fph(3, 3600), conc_model('sequential', 1, 'P1'), conc_mutants([('CopyOut', 1, 'P1', 'ResultsPrivate')]),
-            hist_gen('histories4-all', 4, 'all', 7200), hist_gen('histories5-core', 5, 'core', 7200),
+            hist_gen('histories3-all', 3, 'all', 7200), hist_gen('histories4-core', 4, 'core', 14400),
             hist_gen('histories8-simulated', 8, 'all', timeout=300, simulate=100000000, depth=10, max_cases=400000)]
 
 
